@@ -28,8 +28,17 @@ def run(ck):
     ck.rule("C07-O2", "the current size is size() of the open active file object, not a directory lookup or a position")
     ck.rule("C07-O3", "with L >= 1 every send evaluates the size check before the (single) write of the record")
     ck.rule("C07-O4", "a size rotation can always move the full file away: the rotated name is new (next index = 1 + maximum over every existing entry), else the rename fails and the active file keeps growing")
-    from rules.c09 import next_index
+    from rules.c09 import next_index, name_scheme
     next_index(ck, S, "C07-O4")
+    name_scheme(ck, S, "C07-O4")      # ... and the scan sees the names the writer produces
+    # ... and what is moved away is the file the sink writes to (its own name, placeholders expanded), under the generated name
+    from rules.c05 import allowed_destructive
+    rt_ = S.m["rotate"]
+    for n_ in [x for x in rt_.calls() if destructive_kind(x) == "rename"]:
+        ok_, why_ = allowed_destructive(S, rt_, n_, "rename")
+        ck.ob("C07-O4", sitestr(rt_, n_), ok_, "rotate() moves the active file itself to the generated name" if ok_ else
+              "rotate() renames %s: when that is not the file the sink writes to (a path with %%{time} placeholders is expanded by FileSink) nothing is moved away and the active file keeps growing" % why_,
+              key="rotate|rename-source")
     cs = S.m["checkSizeRotation"]
     ri = S.m["rotateIfNeeded"]
     g = S.g(cs)
